@@ -262,6 +262,14 @@ def restore_constants(U, snap0, pristine):
         cur.exponents, cur.triple, cur.factor, cur.factor_inv, cur.name = val
 
 
+def is_float_int(n):
+    """the integer n is exactly a binary64 value (so int -> float conversion does not round)"""
+    try:
+        return int(float(n)) == n
+    except OverflowError:
+        return False
+
+
 def close(a, b, ulps=8):
     if a == b:
         return True
@@ -462,12 +470,28 @@ def run_ucase(c, Pm):
                 if not close(res[1], want, 8):
                     fails.append('convert: %r, expected %r' % (res[1], want))
                 if rr.exact() and rr.k == 0 and float(v) == int(v) and abs(v) < 2 ** 20:
-                    # a purely rational factor applied to a small whole number: the result is THE float nearest to the
-                    # exact quotient (one division of exact integers; seeded change C12-L rounded the factor first)
+                    # a purely rational factor n/d applied to a small whole number.  With n = numer(a)*denom(b) and
+                    # d = denom(a)*numer(b) taken from the canonical (gcd-reduced) triples of the two operands, the
+                    # result is THE float nearest to the exact quotient whenever n, n*v and d are floats themselves:
+                    # binary floating point then rounds once, in the division (seeded change C12-L rounded the factor
+                    # first).  When one of them is not a float (integers above 2**53 with a wide odd part, e.g.
+                    # (arcsec/km)**3 -> (deg/m)**3, d = 648000000**3) no sequence of float operations on these
+                    # integers is exact, every step may round, and the property does not ask for correct rounding
+                    # there: each of the at most four roundings is within half an ulp, so 5 ulp of the exact quotient
+                    # is what is demanded instead.
                     from fractions import Fraction as _Fr
                     ex = float(_Fr(int(v)) * rr.q)
-                    if res[1] != ex:
-                        fails.append('convert is not exact: %r, the correctly rounded value is %r' % (res[1], ex))
+                    n = ra.q.numerator * rb.q.denominator
+                    d = ra.q.denominator * rb.q.numerator
+                    if is_float_int(n) and is_float_int(n * int(v)) and is_float_int(d):
+                        out.setdefault('tags', []).append('convert:whole-number:single-rounding(compared exactly)')
+                        if res[1] != ex:
+                            fails.append('convert is not exact: %r, the correctly rounded value is %r' % (res[1], ex))
+                    else:
+                        out.setdefault('tags', []).append('convert:whole-number:integers-not-floats(5 ulp)')
+                        if not close(res[1], ex, 5):
+                            fails.append('convert of a whole number: %r is more than 5 ulp from the exact quotient %r'
+                                         % (res[1], ex))
                 back = b.convert(res[1], a)
                 if not close(back, v, 16):
                     fails.append('convert round trip: %r -> %r' % (v, back))
@@ -1379,6 +1403,8 @@ def run(ctx):
             ctx.count('cls:' + c['cls'])
         if res.get('exc'):
             ctx.count('exc:' + res['exc'][0])
+        for t in res.get('tags', ()):
+            ctx.count(t)
         if res['fails']:
             bad[i] = res
             sig = signature(c, res)
